@@ -169,6 +169,7 @@ type raceFinding struct {
 	report string
 	script *Script
 	count  int
+	before []int // indices the same race worker had executed earlier in its process
 }
 
 // RunRaceProng is the coordinator side.  It returns findings (already
@@ -264,7 +265,12 @@ func RunRaceProng(o CheckOptions, e Engine, runs int, workDir string) (finds []*
 		}
 		s := GenScript(e, o.Seed, idx, o.Tier)
 		s.Config["race"] = 1
-		bySig[full] = &raceFinding{sig: full, report: r.errOut, script: s, count: 1}
+		// the runs this race worker executed before the one that raced
+		var before []int
+		for j := k; j < idx; j += workers {
+			before = append(before, j)
+		}
+		bySig[full] = &raceFinding{sig: full, report: r.errOut, script: s, count: 1, before: before}
 	}
 	// minimise each finding with subprocess executions
 	for _, f := range bySig {
@@ -275,6 +281,29 @@ func RunRaceProng(o CheckOptions, e Engine, runs int, workDir string) (finds []*
 			return sig != "" && o.Property+"/"+sig == f.sig
 		}
 		best := f.script
+		if !fails(best) && len(f.before) > 0 {
+			// not reproducible alone: replay it as the history of runs of that process
+			withPre := best.Clone()
+			withPre.Config["race"] = 1
+			withPre.Prelude = &Prelude{Batch: o.Seed, Tier: o.Tier, Indices: f.before}
+			if fails(withPre) {
+				for len(withPre.Prelude.Indices) > 1 {
+					half := withPre.Clone()
+					half.Config["race"] = 1
+					half.Prelude.Indices = half.Prelude.Indices[len(half.Prelude.Indices)/2:]
+					if !fails(half) {
+						break
+					}
+					withPre = half
+				}
+				stats["race_findings_needing_a_prelude"]++
+				withPre.Schedule = nil
+				withPre.Expect = &Expect{Signature: f.sig, Detail: firstRaceLines(f.report) + " (after the prelude of earlier runs listed in the replay file)"}
+				f.script = withPre
+				finds = append(finds, f)
+				continue
+			}
+		}
 		execs := 0
 		try := func(c *Script) bool {
 			if execs > 60 {
@@ -341,6 +370,13 @@ func RunRaceOne(path string, tries int) int {
 	if err != nil {
 		fmt.Fprintln(os.Stderr, err)
 		return 2
+	}
+	if e := EngineFor(s.Property); e != nil {
+		RunPrelude(e, s, func(p *Script) {
+			if len(p.Tasks) >= 2 {
+				RaceExec(p)
+			}
+		})
 	}
 	for i := 0; i < tries; i++ {
 		RaceExec(s)
